@@ -163,6 +163,47 @@ func (n cvNames) str(s string) string {
 	return hx.Str(s)
 }
 
+// cvTwinFp computes the fingerprint of the OTHER S form of a P-256 certificate without using the code under
+// test for it (no p256.Swap / Normalize / CalculateAlternateFingerprint): the ASN.1 ECDSA signature is parsed
+// with encoding/asn1 + math/big, s is replaced by n - s (n = the P-256 group order), re-encoded, put on a copy
+// of the certificate, and that copy's Fingerprint() is the twin. "" when the certificate is not P-256 or its
+// signature is not a valid (r, s) pair with 0 < s < n (such a certificate never passes CheckSignature).
+func cvTwinFp(c cert.Certificate) string {
+	if c.Curve() != cert.Curve_P256 {
+		return ""
+	}
+	n := elliptic.P256().Params().N
+	var v struct{ R, S *big.Int }
+	rest, err := asn1.Unmarshal(c.Signature(), &v)
+	if err != nil || len(rest) != 0 || v.R == nil || v.S == nil || v.R.Sign() <= 0 || v.S.Sign() <= 0 || v.S.Cmp(n) >= 0 {
+		return ""
+	}
+	sig2, err := asn1.Marshal(struct{ R, S *big.Int }{v.R, new(big.Int).Sub(n, v.S)})
+	if err != nil {
+		panic(err)
+	}
+	same, err := cert.VerifWithSignature(c, c.Signature())
+	if err != nil {
+		panic(err)
+	}
+	f0, _ := c.Fingerprint()
+	if f1, _ := same.Fingerprint(); f1 != f0 {
+		panic("copy of a certificate with the same signature has another fingerprint")
+	}
+	tc, err := cert.VerifWithSignature(c, sig2)
+	if err != nil {
+		panic(err)
+	}
+	fp, err := tc.Fingerprint()
+	if err != nil {
+		panic(err)
+	}
+	if fp == f0 {
+		panic("the two S forms have the same fingerprint")
+	}
+	return fp
+}
+
 // cvCertLit translates a real certificate into a model/Cert.v record through its public interface. fp is what
 // the caller wants in c_fp ("" = recompute with Fingerprint()).
 func cvCertLit(c cert.Certificate, fp string, names cvNames) string {
@@ -173,10 +214,7 @@ func cvCertLit(c cert.Certificate, fp string, names cvNames) string {
 			panic(err)
 		}
 	}
-	fp2, err := cert.CalculateAlternateFingerprint(c)
-	if err != nil {
-		fp2 = "" // a signature p256.Swap cannot parse: VerifyCertificate refuses such a certificate after verify()
-	}
+	fp2 := cvTwinFp(c) // computed independently of the code under test
 	return hx.App("mkCert", hx.N(uint64(c.Version())), hx.N(uint64(c.Curve())), hx.Str(c.Name()),
 		cvPfxList(c.Networks()), cvPfxList(c.UnsafeNetworks()), cvStrList(c.Groups()), hx.Bool(c.IsCA()),
 		cvTimeLit(c.NotBefore()), cvTimeLit(c.NotAfter()), names.str(c.Issuer()), hx.Bytes(c.PublicKey()),
@@ -243,6 +281,7 @@ func cvBuildUniverse(c *hx.Ctx) *cvUniverse {
 		un4, un6     []string
 		nb, na       time.Time
 		inMemory     bool
+		v2only       bool // the constraint needs IPv6 entries
 	}
 	long := cvT0.Add(100 * cvYear)
 	specs := []spec{
@@ -254,11 +293,26 @@ func cvBuildUniverse(c *hx.Ctx) *cvUniverse {
 			un4: []string{"10.42.0.0/16", "192.0.2.0/24"}, nb: cvT0.Add(24 * time.Hour), na: cvT0.Add(40 * cvYear)},
 		{kind: "expired", nb: cvT0.Add(-20 * cvYear), na: cvT0.Add(-10 * cvYear)},
 		{kind: "subsec", groups: []string{"a"}, nb: cvT0.Add(250 * time.Millisecond), na: long.Add(750 * time.Millisecond), inMemory: true},
+		// zero-length prefixes: a /0 covers its own address family only (a CA network may not be the unspecified
+		// address, so the /0 network constraints are written on a non-zero address)
+		{kind: "un0v4", un4: []string{"0.0.0.0/0"}, nb: cvT0, na: long},
+		{kind: "un0v6", un6: []string{"::/0"}, nb: cvT0, na: long, v2only: true},
+		{kind: "un0both", un4: []string{"0.0.0.0/0"}, un6: []string{"::/0"}, nb: cvT0, na: long, v2only: true},
+		{kind: "un0v4n6", un4: []string{"0.0.0.0/0"}, un6: []string{"2001:db8::/32"}, nb: cvT0, na: long, v2only: true},
+		{kind: "un0v6n4", un4: []string{"172.16.0.0/12"}, un6: []string{"::/0"}, nb: cvT0, na: long, v2only: true},
+		{kind: "net0v4", nets4: []string{"10.0.0.0/0"}, nb: cvT0, na: long},
+		{kind: "net0v6", nets6: []string{"fd00::/0"}, nb: cvT0, na: long, v2only: true},
+		{kind: "net0both", nets4: []string{"10.0.0.0/0"}, nets6: []string{"fd00::/0"}, nb: cvT0, na: long, v2only: true},
+		{kind: "net0v4n6", nets4: []string{"10.0.0.0/0"}, nets6: []string{"fd42:1::/64"}, nb: cvT0, na: long, v2only: true},
+		{kind: "net0v6n4", nets4: []string{"10.42.0.0/16"}, nets6: []string{"fd00::/0"}, nb: cvT0, na: long, v2only: true},
 	}
 	idx := 0
 	for _, curve := range []cert.Curve{cert.Curve_CURVE25519, cert.Curve_P256} {
 		for _, ver := range []cert.Version{cert.Version1, cert.Version2} {
 			for _, sp := range specs {
+				if sp.v2only && ver != cert.Version2 {
+					continue
+				}
 				key := cvNewKey(c, curve)
 				t := &cert.TBSCertificate{Version: ver, Name: fmt.Sprintf("ca-%s-%d-v%d", sp.kind, curve, ver), Groups: sp.groups,
 					IsCA: true, NotBefore: sp.nb, NotAfter: sp.na, PublicKey: key.pub, Curve: curve}
@@ -445,12 +499,21 @@ func cvNets(c *hx.Ctx, caNets []netip.Prefix, mode int, allowV6 bool, atLeastOne
 	}
 	n := 1 + c.Intn(3)
 	var out []netip.Prefix
-	bad := c.Intn(n) // for the "outside" modes only one entry is outside, the rest inside
+	bad := c.Intn(n)          // for the "outside" modes only one entry is outside, the rest inside
+	var narrow []netip.Prefix // a /0 has nothing outside it in its own family
+	for _, m := range usable {
+		if m.Bits() > 0 {
+			narrow = append(narrow, m)
+		}
+	}
 	for i := 0; i < n; i++ {
 		m := usable[c.Intn(len(usable))]
 		md := cvMInside
 		if mode == cvMEdge || ((mode == cvMOutWider || mode == cvMOutAdjacent) && i == bad) {
 			md = mode
+			if mode != cvMEdge && len(narrow) > 0 {
+				m = narrow[c.Intn(len(narrow))]
+			}
 		}
 		out = append(out, cvPick(c, m, md))
 	}
@@ -505,6 +568,18 @@ func cvLeafTBS(c *hx.Ctx, u *cvUniverse, ca *cvCA, o cvLeafOpt) *cert.TBSCertifi
 	}
 	t.Networks = cvNets(c, ca.c.Networks(), o.nets, allowV6, !o.isCA)
 	t.UnsafeNetworks = cvNets(c, ca.c.UnsafeNetworks(), o.unsafe, allowV6, false)
+	if !o.isCA && len(ca.c.Networks()) == 0 { // v2 wants an address of the family of every unsafe network
+		has := map[bool]bool{}
+		for _, p := range t.Networks {
+			has[p.Addr().Is4()] = true
+		}
+		for _, p := range t.UnsafeNetworks {
+			if is4 := p.Addr().Is4(); !has[is4] && (is4 || allowV6) {
+				t.Networks = append(t.Networks, cvFreePrefix(c, !is4))
+				has[is4] = true
+			}
+		}
+	}
 	// window
 	cnb, cna := ca.c.NotBefore(), ca.c.NotAfter()
 	step := time.Second
@@ -735,9 +810,11 @@ func runCertVerify(c *hx.Ctx) {
 		return cvMakePool(cas)
 	}
 
-	emit := func(kind string, ca *cvCA, lc cert.Certificate, pool *cvPool, blMode int, t time.Time, mutate bool) {
+	// force: 0 = random later state; 1 / 2 = the later state is the SAME pool at the same instant with the
+	// presented fingerprint / the independently computed twin fingerprint added to the blocklist
+	emit := func(kind string, ca *cvCA, lc cert.Certificate, pool *cvPool, blMode int, t time.Time, mutate bool, force int) {
 		fp, _ := lc.Fingerprint()
-		fp2, _ := cert.CalculateAlternateFingerprint(lc)
+		fp2 := cvTwinFp(lc)
 		randFp := fmt.Sprintf("%x", sha256.Sum256(c.RandBytes(8)))
 		switch blMode {
 		case 1:
@@ -765,6 +842,9 @@ func runCertVerify(c *hx.Ctx) {
 			// a later trust state: another pool object (reload), a changed blocklist, a later time
 			p2 := pool
 			pm := c.Intn(5)
+			if force != 0 {
+				pm = 0
+			}
 			switch pm {
 			case 1: // reload without the signer
 				var rest []*cvCA
@@ -787,6 +867,9 @@ func runCertVerify(c *hx.Ctx) {
 				}
 			}
 			bm := c.Intn(6)
+			if force != 0 {
+				bm = force
+			}
 			switch bm {
 			case 1:
 				p2.p.BlocklistFingerprint(fp)
@@ -800,7 +883,7 @@ func runCertVerify(c *hx.Ctx) {
 				p2.p.BlocklistFingerprint(randFp)
 			}
 			t2 := t
-			if c.Chance(0.5) {
+			if force == 0 && c.Chance(0.5) {
 				t2 = cvRandTime(c, lc, ca)
 			}
 			sigok2 := cvSigOK(p2.p, lc)
@@ -842,6 +925,7 @@ func runCertVerify(c *hx.Ctx) {
 		{"nets-wider", func(o *cvLeafOpt) { o.nets = cvMOutWider }},
 		{"nets-adjacent", func(o *cvLeafOpt) { o.nets = cvMOutAdjacent }},
 		{"nets-family", func(o *cvLeafOpt) { o.nets = cvMOutFamily; o.version = cert.Version2 }},
+		{"unsafe-family", func(o *cvLeafOpt) { o.unsafe = cvMOutFamily; o.version = cert.Version2 }},
 		{"unsafe-edge", func(o *cvLeafOpt) { o.unsafe = cvMEdge }},
 		{"unsafe-wider", func(o *cvLeafOpt) { o.unsafe = cvMOutWider }},
 		{"unsafe-adjacent", func(o *cvLeafOpt) { o.unsafe = cvMOutAdjacent }},
@@ -857,6 +941,10 @@ func runCertVerify(c *hx.Ctx) {
 	ti := 0
 	for _, ca := range u.cas {
 		for _, v := range variants {
+			if zero := strings.HasPrefix(ca.kind, "un0") || strings.HasPrefix(ca.kind, "net0"); zero &&
+				!(v.name == "plain" || strings.HasPrefix(v.name, "nets-") || strings.HasPrefix(v.name, "unsafe-")) {
+				continue
+			}
 			o := sameKey(ca)
 			o.inMemory = strings.HasPrefix(ca.kind, "subsec")
 			v.set(&o)
@@ -881,8 +969,27 @@ func runCertVerify(c *hx.Ctx) {
 				if v.name == "high-s" || (v.name == "plain" && k == 1) {
 					bl = 1 + (ti % 2)
 				}
-				emit("sweep-"+v.name, ca, lc, pickPool(ca, true), bl, t, true)
+				emit("sweep-"+v.name, ca, lc, pickPool(ca, true), bl, t, true, 0)
 			}
+		}
+	}
+	// 1b. both S forms of a P-256 certificate x blocklisting the presented form or the other form, on the full
+	//     check and on the cached re-check (the certificate is accepted first, then the fingerprint is blocklisted)
+	for _, ca := range u.cas {
+		if ca.c.Curve() != cert.Curve_P256 || strings.HasPrefix(ca.kind, "expired") || strings.HasPrefix(ca.kind, "un0") || strings.HasPrefix(ca.kind, "net0") {
+			continue
+		}
+		for form := 1; form <= 2; form++ {
+			o := sameKey(ca)
+			o.inMemory = strings.HasPrefix(ca.kind, "subsec")
+			o.sigForm = form
+			lc, _ := cvLeaf(c, u, ca, o)
+			t := lc.NotBefore().Add(lc.NotAfter().Sub(lc.NotBefore()) / 2)
+			kind := fmt.Sprintf("twin-%s-", map[int]string{1: "low", 2: "high"}[form])
+			emit(kind+"full-block-presented", ca, lc, pickPool(ca, true), 1, t, true, 0)
+			emit(kind+"full-block-twin", ca, lc, pickPool(ca, true), 2, t, true, 0)
+			emit(kind+"cached-block-presented", ca, lc, pickPool(ca, true), 0, t, true, 1)
+			emit(kind+"cached-block-twin", ca, lc, pickPool(ca, true), 0, t, true, 2)
 		}
 	}
 
@@ -904,7 +1011,7 @@ func runCertVerify(c *hx.Ctx) {
 		}
 		o.groups = pick3(cvMInside, cvMEdge, cvMOutAdjacent, cvMNone)
 		o.nets = pick3(cvMInside, cvMEdge, cvMOutWider, cvMOutAdjacent, cvMOutFamily)
-		o.unsafe = pick3(cvMInside, cvMEdge, cvMOutWider, cvMOutAdjacent, cvMNone, cvMNone)
+		o.unsafe = pick3(cvMInside, cvMEdge, cvMOutWider, cvMOutAdjacent, cvMOutFamily, cvMNone, cvMNone)
 		o.window = []int{0, 0, 0, 4, 4, 1, 1, 2, 3, 5}[c.Intn(10)]
 		if c.Chance(0.3) {
 			o.version = cert.Version(1 + c.Intn(2))
@@ -940,7 +1047,7 @@ func runCertVerify(c *hx.Ctx) {
 		if c.Chance(0.25) {
 			bl = 1 + c.Intn(4)
 		}
-		emit(kind, ca, lc, pickPool(ca, inPool), bl, cvRandTime(c, lc, ca), true)
+		emit(kind, ca, lc, pickPool(ca, inPool), bl, cvRandTime(c, lc, ca), true, 0)
 	}
 
 	// 3. AddCA: sequences of additions (CAs, non-CAs, CAs whose self-signature does not verify, repeats)
@@ -1179,7 +1286,7 @@ func runCertVerify(c *hx.Ctx) {
 			map[string]any{"op": "history", "pool": len(pool.cas), "steps": js})
 	}
 	cw.Meta("verdicts", stats)
-	cw.Close("real CAPool of 1-4 CAs out of 28 (open/group/network/unsafe/fully constrained, expired, sub-second; v1+v2; Curve25519+P256) x real signed leaves " +
+	cw.Close("real CAPool of 1-4 CAs out of 52 (open/group/network/unsafe/fully constrained, zero-length network and unsafe-network constraints of one or both families, expired, sub-second; v1+v2; Curve25519+P256) x real signed leaves " +
 		"(each constraint inside/edge/outside, wrong key, high/low-S, curve mismatch, missing/unknown issuer) x time at nb-1s..na+1s boundaries and random x blocklist of fp/twin fp/other; " +
 		"accepted certificates are re-checked (cached and full) against a reloaded pool / changed blocklist / later time; pools with history: genuine leaf (full+cached), then same-signature certificates with one identity field changed and other genuine leaves on the SAME pool object, each verdict compared with a fresh pool; non-trivial = issuer found in pool and signature valid; distinct by literal")
 }
